@@ -9,13 +9,20 @@ use vh_exec::flat::*;
 use vh_exec::*;
 
 fn exec_line(line: &str) -> String {
+    if line.starts_with("R ") {
+        // a case of the real-operator family (c02r): not ours
+        return format!(
+            "trivial-skip\t{}\t{{| c_graph := mk_graph nil nil; c_ops := nil; c_consts := nil; c_ins := nil; c_outs := nil; c_plan := Some nil; c_plan_noip := Some nil; c_runs := nil |}}",
+            line
+        );
+    }
     let c = parse_case(line);
     let (tag, term) = exec_case(&c);
     format!("{}\t{}\t{}", tag, line, term)
 }
 
 fn timeout_line(line: &str) -> String {
-    let c = parse_case(line);
+    let c = parse_case(if line.starts_with("R ") { "v|0=1|0|" } else { line });
     format!("timeout\t{}\t{}", line, timeout_term(&c))
 }
 
